@@ -82,7 +82,7 @@ func runC11(c *Ctx) {
 			w := map[string]interface{}{"mode": m.name, "key": mon.Hex(key), "iv": mon.Hex(iv), "plaintext": mon.Hex(pt), "len": n, "spare_cap": spare}
 			var ct []byte
 			var err error
-			if pi := mon.Guard(func() { ct, err = m.f(keyC.Slice(), inC.Slice(), true) }); pi != nil {
+			if pi := mon.Guard(func() { ct, err = m.f(keyC.Slice(), inC.Slice(), true); keep("sm4."+m.name+"(encrypt)", ct) }); pi != nil {
 				rep.Violation("C11/"+m.name+"/encrypt-panic/"+pi.Func, pi.Value, w)
 				rep.Eval("panic")
 				return
@@ -112,7 +112,7 @@ func runC11(c *Ctx) {
 			// decrypt the *reference* ciphertext (so a consistent enc/dec pair of wrong functions cannot hide)
 			ctC := mon.NewCanary(want, spare)
 			var back []byte
-			if pi := mon.Guard(func() { back, err = m.f(keyC.Slice(), ctC.Slice(), false) }); pi != nil {
+			if pi := mon.Guard(func() { back, err = m.f(keyC.Slice(), ctC.Slice(), false); keep("sm4."+m.name+"(decrypt)", back) }); pi != nil {
 				rep.Violation("C11/"+m.name+"/decrypt-panic/"+pi.Func, pi.Value, w)
 				return
 			}
